@@ -241,6 +241,33 @@ pub open spec fn fpre_bytes(f: Seq<(Seq<char>, MV)>, i: int) -> Seq<u8>
 {
     if i <= 0 { Seq::empty() } else if fpre_skip(f, i - 1).contains(f[i - 1].0) { fpre_bytes(f, i - 1) } else { fpre_bytes(f, i - 1) + ser(f[i - 1].1) }
 }
+/// the Size options yielded by the non-skipped fields before i (a later one for the same name overrides): what Component::read must have
+/// pending in `dynamic_size` when it reaches field i
+pub open spec fn fpre_sizes(f: Seq<(Seq<char>, MV)>, i: int) -> Map<Seq<char>, usize>
+    decreases i
+{
+    if i <= 0 { Map::empty() } else {
+        let m = fpre_sizes(f, i - 1);
+        if fpre_skip(f, i - 1).contains(f[i - 1].0) { m } else { match opt_of(f[i - 1].1) { OV::Size(k, n) => m.insert(k, n), _ => m } }
+    }
+}
+/// sum of the first i per-field consumption counts
+pub open spec fn isum(s: Seq<int>, i: int) -> int
+    decreases i
+{
+    if i <= 0 { 0 } else { isum(s, i - 1) + s[i - 1] }
+}
+pub proof fn lemma_isum_push(s: Seq<int>, x: int, i: int)
+    requires 0 <= i <= s.len()
+    ensures isum(s.push(x), i) == isum(s, i)
+    decreases i
+{
+    if i > 0 { lemma_isum_push(s, x, i - 1); }
+}
+/// read-side ledger: field k (not skipped) that had a Size(n) pending took exactly n bytes off the parent stream
+pub open spec fn sized_exact(f: Seq<(Seq<char>, MV)>, cons: Seq<int>, i: int) -> bool {
+    forall|k: int| 0 <= k < i && !fpre_skip(f, k).contains(f[k].0) && fpre_sizes(f, k).contains_key(f[k].0) ==> #[trigger] cons[k] == fpre_sizes(f, k)[f[k].0]
+}
 pub proof fn lemma_fields_split(f: Seq<(Seq<char>, MV)>, i: int)
     requires 0 <= i <= f.len()
     ensures ser_fields_from(f, 0, Set::empty()) == fpre_bytes(f, i) + ser_fields_from(f, i, fpre_skip(f, i))
@@ -262,7 +289,7 @@ pub proof fn lemma_fields_split(f: Seq<(Seq<char>, MV)>, i: int)
 }
 pub proof fn lemma_fpre_local(f: Seq<(Seq<char>, MV)>, g: Seq<(Seq<char>, MV)>, i: int)
     requires 0 <= i <= f.len(), i <= g.len(), forall|k: int| 0 <= k < i ==> f[k] == g[k]
-    ensures fpre_skip(f, i) == fpre_skip(g, i), fpre_bytes(f, i) == fpre_bytes(g, i)
+    ensures fpre_skip(f, i) == fpre_skip(g, i), fpre_bytes(f, i) == fpre_bytes(g, i), fpre_sizes(f, i) == fpre_sizes(g, i)
     decreases i
 {
     if i > 0 { lemma_fpre_local(f, g, i - 1); }
@@ -277,9 +304,13 @@ def impl_specs(ty_regex, label, mv, wf, rwf):
                mod="data", name="views_" + label, file=DATA, impl=ty_regex)
 
 
+ENGINE_W = ["C03", "C04", "C11", "C12", "C14", "C15", "C16", "C17", "C01"]
+ENGINE_R = ["C03", "C05", "C06", "C07", "C10", "C12", "C13", "C02", "C01", "C16"]
 def M(ty_regex, name, **kw):
     """one method of an `impl Message for ..` block (Rdyn on the stream parameter)"""
-    kw.setdefault("props", ["C18"])
+    # the engine is on the dependency path of every property whose messages are built from trame!/component! layouts (ENGINE_ASM in their
+    # assumptions): writers (write, length, options) for the emitting properties, readers for the parsing ones
+    kw.setdefault("props", ["C18"] + {"write": ENGINE_W, "length": ENGINE_W, "options": ENGINE_W + ENGINE_R, "read": ENGINE_R}.get(name, []))
     if name == "write":
         kw["sig_sub"] = W_SIG + kw.get("sig_sub", [])
     if name == "read":
@@ -434,10 +465,15 @@ M(COMP, "length", nloops=1, body_sub=[ITER],
         decreases self.entries().len() - __i"""},
   hints=[(r"__i \+= 1;", 1, "let ghost j = __i as int - 1; let ghost s0 = filtering_key.s(); proof { assert(f[j] == (name@, value.mv())); assert(self.entries()[j].1.wf()); }", "atend")])
 M(COMP, "read", nloops=1,
+  # how a pending MessageOption::Size(name, n) is honoured (asserted property obligations, not hints)
+  claims=[(r"value\.read\(reader\)\?;", 1, "proof { assert(!fpre_sizes(f1, j).contains_key(name@)); }", "before", "C18,C10,C06,C05,C03", "parent-stream-only-without-pending-size"),
+          (r"reader\.read_exact\(&mut local\)\?;", 1, "proof { assert(local@.len() == fpre_sizes(f1, j)[name@]); }", "after", "C18,C10,C06,C05,C03", "sized-field-reads-exactly-its-size"),
+          (r"MessageOption::None => \(\)\s*\n\s*\}", 1, "proof { assert(dynamic_size.m() =~= fpre_sizes(self.fields(), j + 1)); }", "after", "C18,C10,C06,C05,C03", "size-option-recorded"),
+          (r"Ok\(\(\)\)", 1, "proof { let n = self.fields().len() as int; assert(cons.len() == n && sized_exact(self.fields(), cons, n) && isum(cons, n) == old(reader).rest().len() - reader.rest().len()); }", "before", "C18,C10,C06,C05,C03", "sized-fields-consume-exactly-their-size")],
   body_sub=[(r"for \(name, value\) in self\.into_iter\(\) \{",
              "let mut __i: usize = 0; while __i < self.len() { let (name, value) = self.get_index_mut(__i).unwrap(); __i += 1;"),
             (r"value\.read\(&mut Cursor::new\(local\)\)", "value.read(dyn_reader(&mut Cursor::new(local)))")],
-  pre="let ghost f0 = self.fields(); let ghost e0 = self.entries(); let ghost r0 = reader.rest(); proof { lemma_suffix_refl(r0); broadcast use lemma_suffix_trans_b; }",
+  pre="let ghost f0 = self.fields(); let ghost e0 = self.entries(); let ghost r0 = reader.rest(); let ghost mut cons: Seq<int> = Seq::empty(); proof { lemma_suffix_refl(r0); broadcast use lemma_suffix_trans_b; }",
   loops={1: """invariant __i <= self.entries().len(), self.entries().len() == e0.len(), f0 == old(self).fields(), e0 == old(self).entries(), r0 == old(reader).rest(),
             is_suffix(reader.rest(), r0),
             forall|k: int| 0 <= k < e0.len() ==> (#[trigger] self.entries()[k]).0 == e0[k].0,
@@ -445,6 +481,8 @@ M(COMP, "read", nloops=1,
             forall|k: int| 0 <= k < e0.len() ==> (#[trigger] self.entries()[k]).1.wf() && self.entries()[k].1.rwf() && same_shape(self.entries()[k].1.mv(), self.entries()[k].1.mv()),
             forall|k: int| __i <= k < e0.len() ==> (#[trigger] self.entries()[k]).1.mv() == f0[k].1,
             filtering_key.s() == fpre_skip(self.fields(), __i as int),
+            dynamic_size.m() =~= fpre_sizes(self.fields(), __i as int),
+            cons.len() == __i, isum(cons, __i as int) == r0.len() - reader.rest().len(), sized_exact(self.fields(), cons, __i as int),
             arrays_empty(MV::Comp(f0)) ==> fpre_bytes(self.fields(), __i as int).len() + reader.rest().len() <= r0.len(),
             no_dyn_before(f0, __i as int) ==> filtering_key.s() =~= Set::<Seq<char>>::empty() && dynamic_size.m() =~= Map::<Seq<char>, usize>::empty(),
             no_dyn_before(f0, __i as int) ==> (r0.len() - reader.rest().len()) + min_fields_from(f0, __i as int) >= min_fields_from(f0, 0),
@@ -458,12 +496,15 @@ M(COMP, "read", nloops=1,
                 proof { assert(f1[j] == (e1[j].0@, e1[j].1.mv())); assert(e1[j].1.wf() && e1[j].1.rwf() && e1[j].1.mv() == f0[j].1); assert(e1[j].0 == e0[j].0); }""", "at"),
          (r"__i \+= 1;", 1, "proof { broadcast use lemma_suffix_trans_b; assert(name@ == f1[j].0); assert(value.mv() == f1[j].1); }", "atend"),
          (r"continue;", 1, """proof { assert(self.entries() =~= e1); assert(self.fields() =~= f1); assert(fpre_skip(f1, j + 1) == fpre_skip(f1, j)); assert(fpre_bytes(f1, j + 1) == fpre_bytes(f1, j));
-                assert(!no_dyn_before(f0, j)); assert(!no_dyn_before(f0, j + 1)); }""", "before"),
+                assert(fpre_sizes(f1, j + 1) == fpre_sizes(f1, j));
+                assert(!no_dyn_before(f0, j)); assert(!no_dyn_before(f0, j + 1));
+                lemma_isum_push(cons, 0, j); cons = cons.push(0); }""", "before"),
          (r"match value\.options\(\) \{", 1, """let ghost vm = value.mv();
                 proof {
                     assert(same_shape(f1[j].1, vm) && value.wf() && value.rwf());
                     lemma_same_shape_right_refl(f1[j].1, vm);
                     assert(is_suffix(reader.rest(), rb));
+                    assert(fpre_sizes(f1, j).contains_key(name@) ==> rb.len() - reader.rest().len() == fpre_sizes(f1, j)[name@]);
                     if no_dyn_before(f0, j) { assert(rb.len() >= reader.rest().len() + min_wire_len(f0[j].1)); }
                     if arrays_empty(MV::Comp(f0)) { assert(arrays_empty(f0[j].1)); assert(ser(vm).len() + reader.rest().len() <= rb.len()); }
                     if is_static(MV::Comp(f0)) {
@@ -482,6 +523,12 @@ M(COMP, "read", nloops=1,
                     lemma_fpre_local(f1, f2, j);
                     assert(fpre_skip(f2, j + 1) == (match opt_of(vm) { OV::Skip(k) => fpre_skip(f2, j).insert(k), _ => fpre_skip(f2, j) }));
                     assert(fpre_bytes(f2, j + 1) == fpre_bytes(f2, j) + ser(vm));
+                    assert(fpre_sizes(f2, j + 1) == (match opt_of(vm) { OV::Size(k, n) => fpre_sizes(f2, j).insert(k, n), _ => fpre_sizes(f2, j) }));
+                    lemma_isum_push(cons, rb.len() - reader.rest().len(), j);
+                    let cons1 = cons; cons = cons.push(rb.len() - reader.rest().len());
+                    assert forall|k: int| 0 <= k < j + 1 && !fpre_skip(f2, k).contains(f2[k].0) && fpre_sizes(f2, k).contains_key(f2[k].0) implies #[trigger] cons[k] == fpre_sizes(f2, k)[f2[k].0] by {
+                        if k < j { lemma_fpre_local(f1, f2, k); assert(f2[k] == f1[k]); assert(cons[k] == cons1[k]); }
+                    }
                     if no_dyn_before(f0, j) {
                         if f0[j].1 is Dyn { assert(!no_dyn_before(f0, j + 1)); } else { assert(!(vm is Dyn)); assert(no_dyn_before(f0, j + 1)); }
                     } else { assert(!no_dyn_before(f0, j + 1)); }
